@@ -243,7 +243,7 @@ class Explorer(object):
 
     def __init__(self, run, unit_points=(0.25, 0.75), vec_unit_points=(0.25, 0.75), prune=True,
                  horizon=2000, max_executions=200000, exec_timeout=30.0, invariant=None,
-                 extra_state=None, stop_on_first=True):
+                 extra_state=None, stop_on_first=True, depth_bound=None):
         self.run = run
         self.unit_points = tuple(unit_points)
         self.vec_unit_points = tuple(vec_unit_points)
@@ -254,6 +254,8 @@ class Explorer(object):
         self.invariant = invariant
         self.extra_state = extra_state
         self.stop_on_first = stop_on_first
+        self.depth_bound = depth_bound      # intentional bound on choice points per execution
+        self.depth_cuts = 0
         self.seen = set()
         self.executions = 0
         self.completed = 0
@@ -320,6 +322,9 @@ class Explorer(object):
 
     def choice(self, kind, menu):
         pos = len(self.trace)
+        if self.depth_bound is not None and pos >= self.depth_bound:
+            self.depth_cuts += 1
+            raise Abort()
         if pos >= self.horizon:
             self.horizon_hits += 1
             raise Abort()
@@ -445,6 +450,7 @@ class Explorer(object):
             'opaque_states': self.opaque_states,
             'unmodelled_draws': self.unmodelled,
             'capped': self.capped,
+            'depth_bound_cuts': self.depth_cuts,
             'max_depth': self.max_depth,
         }
 
